@@ -3,6 +3,8 @@
 A recipe is JSON. IR is built from it as MLIR text in generic form.
 
     {"nb_cores": N, "nargs": k, "blocks": [[stmt...], ...], "terms": [term per non-last block], "ret": 0|1|2,
+     "vis": "none"|"public"|"private" (visibility of main), "helpers": [{"vis": ..., "body": [stmt...]}] (further functions with a body,
+     same leading signature, callable from main through ["callf", k]; build_module() assembles them),
      "inputs": [{"trips": [...], "p": [...], "x": int}, ...]}
 
 Statements (every executed statement carries a unique integer `tag` attribute; the builder records tag -> kind,
@@ -57,6 +59,14 @@ DART_KERNELS = {
     13: ("dart.operation", "snax_xdma", "mul", "i32", "i32", COMPUTE),
     14: ("dart.schedule", "snax_xdma", "add", "i8", "i8", COMPUTE),
     15: ("dart.operation", "snax_xdma", "rescale", "i32", "i32", COMPUTE),  # kernel class of an extension, operand types of none
+    # fused regions: 2+ dart.generic ops chained through streams. The rules look at the FIRST generic only
+    # ("str_op := op.body.block.first_op"), so the first kernel decides the core.
+    16: ("dart.operation", "snax_xdma", [["mul", "i32", "i32"], ["add", "i32", "i32"]], None, None, COMPUTE),
+    17: ("dart.operation", "snax_xdma", [["add", "i32", "i32"], ["mul", "i32", "i32"]], None, None, DM),
+    18: ("dart.schedule", "snax_gemmx", [["mul", "i32", "i32"], ["add", "i32", "i32"], ["rescale", "i32", "i8"]], None, None, COMPUTE),
+    19: ("dart.operation", "snax_alu", [["add", "i32", "i32"], ["mul", "i32", "i32"]], None, None, COMPUTE),
+    20: ("dart.schedule", "snax_xdma", [["add", "i8", "i8"], ["rescale", "i8", "i32"]], None, None, COMPUTE),
+    21: ("dart.schedule", "snax_xdma", [["rescale", "i32", "i8"], ["add", "i8", "i8"]], None, None, DM),
 }
 XDMA_FLAVOR_MIN = 10
 
@@ -78,7 +88,7 @@ def _stmt_list(draw, depth, budget, flags, in_loop=False, min_stmts=1):
         kinds = ["copy"] * flags["w_copy"] + ["gen"] * flags["w_gen"] + ["view"] * flags["w_view"] + ["alloc"] * flags["w_alloc"]
         kinds += ["use"] * flags["w_use"] + ["op"] * flags["w_op"] + ["call"] * flags["w_call"] + ["bar"] * flags["w_bar"]
         kinds += ["dealloc"] * flags["w_dealloc"]
-        kinds += ["scoped"] * flags.get("w_scoped", 0)
+        kinds += ["scoped"] * flags.get("w_scoped", 0) + ["callf"] * flags.get("w_callf", 0)
         if depth > 0:
             kinds += ["diamond"] * flags.get("w_diamond", 0)
         if depth > 0:
@@ -96,6 +106,8 @@ def _stmt_list(draw, depth, budget, flags, in_loop=False, min_stmts=1):
             out.append(["view", draw(st.sampled_from([0, 0, 0, 1])), draw(_ref), off])
         elif k == "alloc":
             out.append(["alloc"])
+        elif k == "callf":
+            out.append(["callf", draw(st.integers(0, 1))])
         elif k == "scoped":
             # alloc; a few data-mover / compute ops on the fresh buffer (ref -1 = newest 16-element value); dealloc
             out.append(["alloc"])
@@ -195,9 +207,9 @@ def count_loops(stmts):
 
 
 C14_FLAGS = dict(w_copy=4, w_gen=4, w_view=2, w_alloc=1, w_use=1, w_op=2, w_call=1, w_bar=1, w_dealloc=0, w_for=3, w_if=3,
-                 w_region=1, flavors=[0, 0, 1, 2, 3, 4, 5, 5, 6, 6, 7, 8, 9, 10, 11, 12, 13, 14, 15])
+                 w_region=1, flavors=[0, 0, 1, 2, 3, 4, 5, 5, 6, 6, 7, 8, 9, 10, 11, 12, 13, 14, 15, 16, 16, 17, 18, 19, 20, 21])
 C13_FLAGS = dict(w_copy=6, w_gen=6, w_view=3, w_alloc=2, w_use=1, w_op=0, w_call=0, w_bar=1, w_dealloc=2, w_for=8, w_if=4,
-                 w_region=0, w_scoped=2, w_diamond=3, flavors=[0, 0, 0, 1, 2, 3, 5, 6, 10, 10, 11, 12, 13, 14, 14, 15])
+                 w_region=0, w_scoped=2, w_diamond=3, flavors=[0, 0, 0, 1, 2, 3, 5, 6, 10, 10, 11, 12, 13, 14, 14, 15, 16, 17, 18, 20, 21])
 
 
 @st.composite
@@ -214,7 +226,11 @@ def program_c14(draw, tier="quick"):
     depth = 3 if tier == "quick" else 4
     budget = 8 if tier == "quick" else 12
     nb = draw(st.sampled_from([1, 1, 2, 3]))
-    blocks = [draw(_stmt_list(depth, budget if i == 0 else max(2, budget // 2), C14_FLAGS)) for i in range(nb)]
+    nh = draw(st.sampled_from([0, 0, 0, 1, 1, 2]))
+    helpers = [dict(vis=draw(st.sampled_from(["private", "private", "private", "public", "none"])),
+                    body=draw(_stmt_list(max(1, depth - 1), max(2, budget // 2), C14_FLAGS))) for _ in range(nh)]
+    flags = dict(C14_FLAGS, w_callf=2) if nh else C14_FLAGS
+    blocks = [draw(_stmt_list(depth, budget if i == 0 else max(2, budget // 2), flags)) for i in range(nb)]
     terms = []
     for i in range(nb - 1):
         later = list(range(i + 1, nb))
@@ -222,9 +238,13 @@ def program_c14(draw, tier="quick"):
             terms.append(["br", draw(st.sampled_from(later))])
         else:
             terms.append(["cond", draw(st.integers(0, 2)), draw(st.sampled_from(later)), draw(st.sampled_from(later))])
-    nloops = sum(count_loops(b) for b in blocks)
-    return dict(nb_cores=draw(st.integers(2, 5)), nargs=draw(st.integers(1, 3)), blocks=blocks, terms=terms,
-                ret=draw(st.sampled_from([0, 0, 1, 2])), inputs=draw(_inputs(nloops, 2, [0, 1, 2, 2, 3])))
+    nloops = max([sum(count_loops(b) for b in blocks)] + [count_loops(h["body"]) for h in helpers])
+    r = dict(nb_cores=draw(st.integers(2, 5)), nargs=draw(st.integers(1, 3)), blocks=blocks, terms=terms,
+             ret=draw(st.sampled_from([0, 0, 1, 2])), inputs=draw(_inputs(nloops, 2, [0, 1, 2, 2, 3])))
+    r["vis"] = draw(st.sampled_from(["none", "none", "public", "private"]))
+    if helpers:
+        r["helpers"] = helpers
+    return r
 
 
 @st.composite
@@ -251,17 +271,27 @@ class Built:
         self.features: set[str] = set()
         self.max_depth = 0
         self.nargs = 0
+        self.helpers: dict = {}
+        self.calls_helper = False
+        self.name = "main"
 
 
 ID_MAP = "affine_map<(d0) -> (d0)>"
 
 
-def build(recipe, func_name="main") -> Built:
+MODULE_HEAD = ["builtin.module {",
+               '  "func.func"() <{sym_name = "ext0", function_type = (index) -> (), sym_visibility = "private"}> ({}) : () -> ()',
+               '  "func.func"() <{sym_name = "ext1", function_type = (index) -> (), sym_visibility = "private"}> ({}) : () -> ()']
+
+
+def build(recipe, func_name="main", tag_start=0, visibility=None, callees=()) -> Built:
+    """Build ONE function (plus a module holding just it). `callees` = [(name, number of trip-count arguments)] of helper
+    functions with the same leading signature that ["callf", k] statements may call."""
     b = Built()
     nargs = max(1, recipe["nargs"])
     b.nargs = nargs
     ctr = [0]
-    tagc = [0]
+    tagc = [tag_start]
 
     def fresh(p):
         ctr[0] += 1
@@ -365,12 +395,14 @@ def build(recipe, func_name="main") -> Built:
                         flavor = flavor % 4
                         t = tag(COMPUTE, ["generic_lib", "generic", "dart_operation", "dart_schedule"][flavor])
                     else:
-                        t = tag(dk[5], f"{dk[0].replace('.', '_')}:{dk[1]}:kernel.{dk[2]}")
+                        t = tag(dk[5], f"{dk[0].replace('.', '_')}:{dk[1]}:kernel.{dk[2] if isinstance(dk[2], str) else '+'.join(k[0] for k in dk[2])}")
                     opnds = ", ".join(v[0] for v in iv_ + [ov_])
                     tys = ", ".join(v[1] for v in iv_ + [ov_])
                     n_all = len(iv_) + 1
                     if dk is not None:
                         opn, acc, kern, ity, oty, this_kind = dk
+                        if isinstance(kern, list):
+                            ity, oty = kern[0][1], kern[-1][2]
                         extra = ""
                         if opn == "dart.schedule":
                             extra = (", bounds = [4 : index], tiles = [" + ", ".join(["[4 : index]"] * n_all) + "]")
@@ -378,23 +410,31 @@ def build(recipe, func_name="main") -> Built:
                         out.append(f'{pad}"{opn}"({opnds}) <{{patterns = [{", ".join([ID_MAP] * n_all)}], accelerator = "{acc}", '
                                    f'operandSegmentSizes = array<i32: {len(iv_)}, 1>{extra}}}> ({{')
                         out.append(f'{pad}^bb0({bargs}):')
-                        if kern == "rescale":
-                            out.append(f'{pad}  %g{t}_r = "dart.generic"(%g{t}_0) <{{library_call = "{acc}"}}> ({{')
-                            out.append(f'{pad}  ^bb1(%g{t}_in: {ity}):')
-                            out.append(f'{pad}    %g{t}_k = "kernel.rescale"(%g{t}_in) {{input_zp = 0 : i32, output_zp = 0 : i32, multiplier = array<i32: 1073741824>, '
-                                       f'shift = array<i8: 30>, min_int = -128 : i32, max_int = 127 : i32, double_round = true}} : ({ity}) -> {oty}')
-                            out.append(f'{pad}    "dart.yield"(%g{t}_k) : ({oty}) -> ()')
-                            out.append(f'{pad}  }}) : (!dart.stream<{ity}>) -> !dart.stream<{oty}>')
-                        else:
-                            second = f"%g{t}_1" if len(iv_) >= 2 else f"%g{t}_0"
-                            out.append(f'{pad}  %g{t}_r = "dart.generic"(%g{t}_0, {second}) <{{library_call = "{acc}"}}> ({{')
-                            out.append(f'{pad}  ^bb1(%g{t}_in: {ity}, %g{t}_in2: {ity}):')
-                            out.append(f'{pad}    %g{t}_k = "kernel.{kern}"(%g{t}_in, %g{t}_in2) : ({ity}, {ity}) -> {oty}')
-                            out.append(f'{pad}    "dart.yield"(%g{t}_k) : ({oty}) -> ()')
-                            out.append(f'{pad}  }}) : (!dart.stream<{ity}>, !dart.stream<{ity}>) -> !dart.stream<{oty}>')
+                        steps = kern if isinstance(kern, list) else [[kern, ity, oty]]
+                        ity, oty = steps[0][1], steps[-1][2]
+                        cur = f"%g{t}_0"
+                        for si, (kname, kin, kout) in enumerate(steps):
+                            res = f"%g{t}_r" if si == len(steps) - 1 else f"%g{t}_s{si}"
+                            if kname == "rescale":
+                                out.append(f'{pad}  {res} = "dart.generic"({cur}) <{{library_call = "{acc}"}}> ({{')
+                                out.append(f'{pad}  ^bb1(%g{t}_{si}in: {kin}):')
+                                out.append(f'{pad}    %g{t}_{si}k = "kernel.rescale"(%g{t}_{si}in) {{input_zp = 0 : i32, output_zp = 0 : i32, multiplier = array<i32: 1073741824>, '
+                                           f'shift = array<i8: 30>, min_int = -128 : i32, max_int = 127 : i32, double_round = true}} : ({kin}) -> {kout}')
+                                out.append(f'{pad}    "dart.yield"(%g{t}_{si}k) : ({kout}) -> ()')
+                                out.append(f'{pad}  }}) : (!dart.stream<{kin}>) -> !dart.stream<{kout}>')
+                            else:
+                                second = f"%g{t}_1" if (si == 0 and len(iv_) >= 2) else cur
+                                out.append(f'{pad}  {res} = "dart.generic"({cur}, {second}) <{{library_call = "{acc}"}}> ({{')
+                                out.append(f'{pad}  ^bb1(%g{t}_{si}in: {kin}, %g{t}_{si}in2: {kin}):')
+                                out.append(f'{pad}    %g{t}_{si}k = "kernel.{kname}"(%g{t}_{si}in, %g{t}_{si}in2) : ({kin}, {kin}) -> {kout}')
+                                out.append(f'{pad}    "dart.yield"(%g{t}_{si}k) : ({kout}) -> ()')
+                                out.append(f'{pad}  }}) : (!dart.stream<{kin}>, !dart.stream<{kin}>) -> !dart.stream<{kout}>')
+                            cur = res
+                            b.features.add("dart_kernel:" + kname)
+                        if len(steps) > 1:
+                            b.features.add("dart_fused_chain")
                         out.append(f'{pad}  "dart.yield"(%g{t}_r) : (!dart.stream<{oty}>) -> ()')
                         out.append(f'{pad}}}) {{tag = {t} : i32}} : ({tys}) -> ()')
-                        b.features.add("dart_kernel:" + kern)
                         if acc == "snax_xdma":
                             b.features.add("xdma_extension_kernel_dm" if this_kind == DM else "xdma_other_kernel_compute")
                     elif flavor % 4 in (0, 1):
@@ -433,6 +473,14 @@ def build(recipe, func_name="main") -> Built:
                 v = sc.idx[s[2] % len(sc.idx)]
                 t = tag(NEUTRAL, "call")
                 out.append(f'{pad}"func.call"({v}) <{{callee = @ext{s[1] % 2}}}> {{tag = {t} : i32}} : (index) -> ()')
+            elif k == "callf":
+                if callees:
+                    cname, ntrip = callees[s[1] % len(callees)]
+                    cargs = [f"%m{i}" for i in range(nargs)] + ["%x0", "%p0", "%p1", "%p2"] + ["%x0"] * ntrip
+                    ctys = [BIG] * nargs + ["index", "i1", "i1", "i1"] + ["index"] * ntrip
+                    out.append(f'{pad}"func.call"({", ".join(cargs)}) <{{callee = @{cname}}}> : ({", ".join(ctys)}) -> ()')
+                    b.features.add("calls_helper")
+                    b.calls_helper = True
             elif k == "bar":
                 t = tag(NEUTRAL, "barrier")
                 out.append(f'{pad}"snax.cluster_sync_op"() {{tag = {t} : i32}} : () -> ()')
@@ -545,10 +593,8 @@ def build(recipe, func_name="main") -> Built:
     b.arg_types = [t for _, t in args]
     rty = "index" if recipe.get("ret", 0) else ""
     sig = ", ".join(t for _, t in args)
-    L = ["builtin.module {",
-         '  "func.func"() <{sym_name = "ext0", function_type = (index) -> (), sym_visibility = "private"}> ({}) : () -> ()',
-         '  "func.func"() <{sym_name = "ext1", function_type = (index) -> (), sym_visibility = "private"}> ({}) : () -> ()',
-         f'  "func.func"() <{{sym_name = "{func_name}", function_type = ({sig}) -> ({rty})}}> ({{',
+    vis = f', sym_visibility = "{visibility}"' if visibility in ("public", "private") else ""
+    L = [f'  "func.func"() <{{sym_name = "{func_name}", function_type = ({sig}) -> ({rty}){vis}}}> ({{',
          f'  ^blk0({", ".join(f"{a}: {t}" for a, t in args)}):',
          '    %c0 = "arith.constant"() <{value = 0 : index}> : () -> index',
          '    %c1 = "arith.constant"() <{value = 1 : index}> : () -> index']
@@ -557,10 +603,42 @@ def build(recipe, func_name="main") -> Built:
             L.append(f"  ^blk{bi}:")
         L.extend(lines)
     L.append("  }) : () -> ()")
-    L.append("}")
-    b.text = "\n".join(L)
+    b.func_lines = L
+    b.tag_end = tagc[0]
+    b.name = func_name
+    b.nblocks = nb
+    b.all_kinds = dict(b.kinds)
+    b.text = "\n".join(MODULE_HEAD + L + ["}"])
     if nb > 1:
         b.features.add("multi_block")
+    return b
+
+
+def build_module(recipe) -> Built:
+    """Module with the entry function `main` and the recipe's helper functions
+    (recipe["helpers"] = [{"vis": "private"|"public"|"none", "body": [stmts]}], recipe["vis"] = visibility of main).
+    Returns main's Built with .helpers (name -> Built), .all_kinds (tags of all functions) and merged features."""
+    helpers = {}
+    tag = 0
+    callees = []
+    for i, h in enumerate(recipe.get("helpers") or []):
+        hb = build(dict(nb_cores=recipe["nb_cores"], nargs=recipe["nargs"], blocks=[h["body"]], terms=[], ret=0), func_name=f"helper{i}",
+                   tag_start=tag, visibility=h.get("vis"))
+        tag = hb.tag_end
+        helpers[hb.name] = hb
+        callees.append((hb.name, hb.nloops))
+    b = build(recipe, tag_start=tag, visibility=recipe.get("vis"), callees=callees)
+    b.helpers = helpers
+    lines = list(MODULE_HEAD)
+    for hb in helpers.values():
+        lines += hb.func_lines
+        b.all_kinds.update(hb.kinds)
+        b.features |= hb.features
+        b.features.add("helper:" + (recipe["helpers"][int(hb.name[6:])].get("vis") or "none") + ("-multi-op" if len(hb.kinds) > 1 else ""))
+    lines += b.func_lines + ["}"]
+    b.text = "\n".join(lines)
+    if helpers:
+        b.features.add("multi_function")
     return b
 
 
